@@ -77,3 +77,108 @@ def __getattr__(name):
         globals()["RecProcessLine"] = cls
         return cls
     raise AttributeError(name)
+
+# --------------------------------------------------------------------------------------------- experiments (C01/C02/C03)
+import hashlib as _hashlib
+
+class InjectedFailure(Exception):
+    """raised by the fault-injecting components below"""
+
+def _h(*xs):
+    return int.from_bytes(_hashlib.blake2b(repr(xs).encode("utf8", "backslashreplace"), digest_size=6).digest(), "big")
+
+class StatefulLearner:
+    """Deterministic learner whose policy depends on everything it has learned (stable hashing, no PYTHONHASHSEED dependence).
+       fmt: 'ap' -> (action, prob) ; 'pmf' -> PMF ; 'kw' -> (action, prob, {'h': ...}) ; 'a' -> bare action
+       fail = ('predict'|'learn'|'params', k): raise InjectedFailure at the k-th call (0-based) of that method."""
+    def __init__(self, tag, fmt="ap", fail=None):
+        self.tag, self.fmt, self.fail = tag, fmt, fail
+        self.h, self.n_pred, self.n_learn = 0, 0, 0
+    @property
+    def params(self):
+        if self.fail and self.fail[0] == "params": raise InjectedFailure(f"learner-params tag={self.tag}")
+        return {"family": "vf_stateful", "tag": self.tag, "fmt": self.fmt}
+    def predict(self, context, actions):
+        if self.fail and self.fail[0] == "predict" and self.n_pred == self.fail[1]: raise InjectedFailure(f"learner-predict tag={self.tag}")
+        self.n_pred += 1
+        n = len(actions); i = self.h % n
+        if self.fmt == "pmf":
+            if n == 1: return [1.0]
+            return [0.5 if j == i else 0.5 / (n - 1) for j in range(n)]
+        if self.fmt == "kw": return actions[i], 1 / n, {"h": self.h % 997}
+        if self.fmt == "a":  return actions[i]
+        return actions[i], 1 / n
+    def learn(self, context, action, reward, probability, **kw):
+        if self.fail and self.fail[0] == "learn" and self.n_learn == self.fail[1]: raise InjectedFailure(f"learner-learn tag={self.tag}")
+        self.n_learn += 1
+        self.h = _h(self.h, repr(context), repr(action), round(float(reward), 6), probability, sorted(kw.items()))
+
+class RecEvaluator:
+    """Custom evaluator: yields rows that expose the learner's state trajectory, the experiment seed seen inside the
+       worker and the number of interactions; logs 'EVAL env_tag lrn_tag val_tag pid' to an O_APPEND side file."""
+    def __init__(self, tag, side, nrows=4, fail_after=None, fail_params=False):
+        self.tag, self.side, self.nrows, self.fail_after, self.fail_params = tag, side, nrows, fail_after, fail_params
+    @property
+    def params(self):
+        if self.fail_params: raise InjectedFailure(f"evaluator-params tag={self.tag}")
+        return {"vf_eval": self.tag, "nrows": self.nrows}
+    def evaluate(self, environment, learner):
+        from coba.context import CobaContext
+        from coba.safety import SafeLearner, SafeEnvironment
+        etag = SafeEnvironment(environment).params.get("tag")
+        ltag = getattr(learner, "tag", None) or type(learner).__name__
+        if self.side: _append(self.side, f"EVAL {etag} {ltag} {self.tag} {os.getpid()}")
+        seed = CobaContext.store.get("experiment_seed")
+        sl = SafeLearner(learner, seed)
+        for i, inter in enumerate(environment.read()):
+            if i >= self.nrows: break
+            if self.fail_after is not None and i == self.fail_after: raise InjectedFailure(f"evaluator-evaluate tag={self.tag}")
+            a, p, kw = sl.predict(inter["context"], inter["actions"])
+            r = inter["rewards"](a) if callable(inter["rewards"]) else inter["rewards"][inter["actions"].index(a)]
+            sl.learn(inter["context"], a, r, p, **kw)
+            yield {"i": i, "seed": seed, "reward": r, "p": p, "state": getattr(learner, "h", None), "val": self.tag}
+
+def rec_function_evaluator(environment, learner):
+    """a bare-function evaluator (module-level so it pickles)"""
+    n = 0
+    for _ in environment.read(): n += 1
+    yield {"n_interactions": n, "lrn": getattr(learner, "tag", None)}
+
+class LoggingCB:
+    """SequentialCB that logs which triple it evaluates (side file) before delegating"""
+    def __init__(self, side, tag="cb", **kw):
+        from coba.evaluators import SequentialCB
+        self.side, self.tag, self.kw = side, tag, kw
+        self._cb = SequentialCB(**kw)
+    @property
+    def params(self):
+        return {**self._cb.params, "vf_eval": self.tag}
+    def evaluate(self, environment, learner):
+        from coba.safety import SafeEnvironment
+        etag = SafeEnvironment(environment).params.get("tag")
+        ltag = getattr(learner, "tag", None) or type(learner).__name__
+        if self.side: _append(self.side, f"EVAL {etag} {ltag} {self.tag} {os.getpid()}")
+        return self._cb.evaluate(environment, learner)
+
+class FailingEnv:
+    """environment wrapper raising at read item k or in params"""
+    def __init__(self, env, where, k=0):
+        self.env, self.where, self.k = env, where, k
+    @property
+    def params(self):
+        if self.where == "params": raise InjectedFailure("environment-params")
+        return self.env.params
+    def read(self):
+        for i, x in enumerate(self.env.read()):
+            if self.where == "read" and i == self.k: raise InjectedFailure("environment-read")
+            yield x
+
+class SleepyFilter:
+    """result-neutral environment filter that sleeps a seeded amount (varies worker timing)"""
+    def __init__(self, ms, seed): self.ms, self.seed = ms, seed
+    @property
+    def params(self): return {}
+    def filter(self, interactions):
+        r = random.Random(self.seed).random()
+        time.sleep(r * self.ms / 1000.0)
+        return interactions
